@@ -108,9 +108,10 @@ def check_strong_scalars(prog, ctx):
             if sp.duals not in pats or sp.drop != "none":
                 continue
         cases.append((sp, False))
-    cases += [(sp, True) for sp in square_specs(tier)]
     if os.environ.get("VERIF_SELFTEST"):
-        cases = cases[::2]
+        # thin each kind separately (the family alternates abelian / fermionic); the square matrices (eigh, solve, ...) all stay
+        cases = [c for c in cases if not c[0].fermionic][::2] + [c for c in cases if c[0].fermionic][::2]
+    cases += [(sp, True) for sp in square_specs(tier)]
     wits, n = {}, 0
     for wmap, cnt in pmap(_strong_job, (prog, tier), cases):
         for k, v in wmap.items():
